@@ -21,7 +21,8 @@ ASSUMPTIONS = ["stub networks have a bounded horizontal receptive field (<= 8 px
                "posteriors within [0.999e-4, 1.001e-4] are undecided for the sparsity clause (float32 softmax)",
                "for over-long (truncated) lines only the start of the frame window is asserted"]
 
-CHARS = list("abcdefg") + [chr(0x3b1 + i) for i in range(40)]
+# the table contains combining marks as classes of their own (decomposed text): "a" + U+0301, "e" + U+0308 have precomposed forms
+CHARS = ["a", "\u0301", "e", "\u0308", "b", "c", "d"] + [chr(0x3b1 + i) for i in range(40)]
 H = 16
 PAD = 32
 
@@ -301,6 +302,24 @@ def body(ctx, case):
         mirrored = ctx.must("process_lines_raises", run, eng, [np.ascontiguousarray(im[:, ::-1]) for im in imgs], mode)
         ctx.check(list(second[0]) == list(mirrored[0]), "result_for_refilled_crop_arrays_is_that_of_their_earlier_content",
                   lambda: "got %r, the new content gives %r; " % (list(second[0]), list(mirrored[0])) + desc())
+    # the padding is a plain attribute of the engine: changed on the live engine it must act like the same value on an engine
+    # that has never been used with another one
+    if 0 < n <= 12 and blur == 0:
+        from vlib.stubs import make_pytorch_engine
+        old_pad = eng.line_padding_px
+        eng.line_padding_px = 16
+        try:
+            live = ctx.must("process_lines_raises", run, eng, imgs, mode)
+        finally:
+            eng.line_padding_px = old_pad
+        with contextlib.redirect_stdout(io.StringIO()):
+            virgin = make_pytorch_engine(CHARS[:C - 1], height_for(C), 0)
+        virgin.batch_size, virgin.max_input_horizontal_pixels, virgin.line_padding_px = bs, 480 * bs, 16
+        want_p = ctx.must("process_lines_raises", run, virgin, imgs, mode)
+        lst = lambda x: None if x is None else list(x)
+        ctx.check(list(live[0]) == list(want_p[0]) and [lst(x) for x in live[2]] == [lst(x) for x in want_p[2]],
+                  "padding_changed_on_a_live_engine_acts_differently",
+                  lambda: "texts %r / %r windows %r / %r; " % (list(live[0]), list(want_p[0]), list(live[2]), list(want_p[2])) + desc())
     # the logits handed back by the first call are still what they were after all the later calls of the same engine
     for j in range(min(n, len(ls))):
         if snap[j] is not None and ls[j] is not None:
